@@ -17,6 +17,7 @@ def run(ctx):
     golden.check(ctx)
     demcheck.header_roundtrips(ctx)
     demcheck.big_metadata(ctx)
+    demcheck.cleartext_roundtrips(ctx)
     objcheck.wire(ctx, profiles.C13, 30 if ctx.quick() else 300, 'default')
     if 'alt' not in ctx.unbuilt: objcheck.wire(ctx, profiles.C13, 10 if ctx.quick() else 100, 'alt')
     hc.vm_crosscheck(ctx, H, model)
@@ -25,6 +26,12 @@ def run(ctx):
 
 def replay(ctx, path):
     import json
+    if 'cleartext' in rep:
+        import demcheck
+        vf.build_harness(ctx); demcheck.cleartext_roundtrips(ctx)
+        bad = [o for o in ctx.obligations if not o['ok']]
+        for o in bad: print(o['detail'])
+        return 1 if bad else 0
     if 'bigmeta' in rep:
         import demcheck
         vf.build_harness(ctx); d = demcheck.Demd(); o = d.ask(f"HDRBIG {rep['bigmeta']}"); d.close()
